@@ -1,7 +1,45 @@
 import PydlVerif.Model.JsonUtil
+import PydlVerif.Model.Fof
 open Lean
 namespace PydlVerif.Driver.C05
+open PydlVerif PydlVerif.Fof
 
-def handle (_j : Json) : Except String Json := throw "C05: no model operations yet"
+def optJ (o : Option Nat) : Json := match o with
+  | none => J.ofInt (-1)
+  | some k => J.ofNat k
+
+def outJ (n : Nat) (o : Out) : Json :=
+  if !o.ok then Json.mkObj [("err", Json.str "model: loop does not terminate / index out of range")] else
+  Json.mkObj [("in", J.ofList J.ofNat ((List.range n).map o.inG.get)),
+              ("mult", J.ofList J.ofNat ((List.range n).map o.mult.get)),
+              ("first", J.ofList optJ ((List.range n).map o.L.first.get)),
+              ("next", J.ofList optJ ((List.range n).map o.L.next.get)),
+              ("ng", J.ofNat o.nG)]
+
+def closeOf (rows : Array Nat) (i j : Nat) : Bool := (rows.getD i 0).testBit j
+
+/-- a graph is `[n, row_0, …, row_{n-1}]`, row_i = bit mask of `close i ·` -/
+def graph (j : Json) : Except String (Nat × Array Nat) := do
+  match ← J.list J.nat j with
+  | n :: rows => if rows.length = n then pure (n, rows.toArray) else throw "graph: need n rows"
+  | [] => throw "graph: empty"
+
+def handle (j : Json) : Except String Json := do
+  let op ← J.fStr j "op"
+  match op with
+  | "groups" =>
+    let gs ← J.list graph (← J.fld j "gs")
+    pure (J.ofList (fun (g : Nat × Array Nat) => outJ g.1 (groupsRun g.1 (closeOf g.2))) gs)
+  | "sphere" =>
+    let (n, rows) ← graph (← J.fld j "g")
+    let chunks ← J.list (J.array J.nat) (← J.fld j "chunks")
+    match sphereRun n (closeOf rows) chunks with
+    | .ok o => pure (outJ n o)
+    | .error e => pure (Json.mkObj [("err", Json.str e)])
+  | "friends" =>
+    let (n, rows) ← graph (← J.fld j "g")
+    let chunks ← J.list (J.array J.nat) (← J.fld j "chunks")
+    pure (outJ n (friendsRun n (closeOf rows) chunks))
+  | _ => throw s!"C05: unknown op {op}"
 
 end PydlVerif.Driver.C05
